@@ -69,7 +69,11 @@ def run(ctx):
                 'batch size (fixed grid 50000, 50001, 60000 = 30000 + 30000, 100001 repetitions plus random sizes; bit, wide (40..70 bits) '
                 'and mixed-radix keys whose rows come from an arithmetic generator that the model re-runs) seen through every view, '
                 'r1 + r2 and JSON; _vectorized_histogram with batch sizes 1..5 on the small results. sampler: fake samplers on the base class '
-                '(sync-only, async-only) and ZerosSampler through run/run_async/sample/run_sweep/run_batch(_async); '
+                '(sync-only, async-only) and ZerosSampler through run/run_async/sample/run_sweep/run_batch(_async). shapes: circuits whose moments are '
+                'written out by hand - several measurements of ONE moment sharing a key (parallel readout), keys repeated over moments, both, next to gates, '
+                'qutrits, frozen circuits, keys whose measurements differ in qid shape (refused) - as a fixed grid for every seed plus generated ones; '
+                'Sampler._get_measurement_shapes and every ZerosSampler entry point against the documented (repetitions, instances, qubits) shape, against '
+                'the model, and against every view of the simulator result of the same all-zero circuit; non-trivial = some key has >= 2 instances; '
                 'distinct by canonical input')
     ctx.assumptions += ['vf/checks/c18.py adapters calling Cirq and canonicalising outputs',
                         'Python int <-> Coq Z literal printing',
@@ -82,6 +86,9 @@ def run(ctx):
         for shard in range(0, n, 160):
             views_stream(ctx, cirq, min(160, n - shard), shard)
         sampler_stream(ctx, cirq, 60 if q else 600)
+        n = 70 if q else 900
+        for shard in range(0, n, 300):
+            shapes_stream(ctx, cirq, min(300, n - shard), shard)
         large_stream(ctx, cirq, LARGE_GRID + [ctx.rng.randint(50_002, 140_000) for _ in range(1 if q else 8)]
                      + ([150_000, 200_001] if not q else []), wide_at=(1,) if q else (1, 4, 7, 10))
     except Exception:
@@ -861,6 +868,322 @@ def large_stream(ctx, cirq, sizes, wide_at):
                             f'{ {k: {x: ks[x] for x in ("a", "b", "c", "m0", "step", "table", "dtype")} for k, ks in case["keys"].items()} }')
 
 
+# ------------------------------------------------------------------ records built from shapes (Sampler._get_measurement_shapes, ZerosSampler)
+SHAPE_KEYS = ['ro', 'a', 'b', 'm0', 'q(0, 1)', 'z']
+SHAPE_FORMS = [(2,), (2,), (2, 2), (2, 2, 2), (3,), (2, 3)]      # qid shapes a key may have (qubits and qutrits)
+
+
+def spec_shapes(cirq, program):
+    """The documentation of the record shape, operation by operation: key -> list of the qid shapes of the measurement
+    operations that carry it, in circuit order (keys in the order of their first measurement); plus the circuit as the
+    model sees it (moments of None / (key, qid shape))."""
+    per_key, moments = collections.OrderedDict(), []
+    for moment in program.moments:
+        row = []
+        for op in moment.operations:
+            if isinstance(op.gate, cirq.MeasurementGate):
+                shape = tuple(int(d) for d in cirq.qid_shape(op))
+                per_key.setdefault(str(op.gate.key), []).append(shape)
+                row.append((str(op.gate.key), shape))
+            else:
+                row.append(None)
+        moments.append(row)
+    return per_key, moments
+
+
+def spec_record_shapes(cirq, program, repetitions):
+    """{key: (repetitions, instances, qubits)}; ValueError when two measurements of a key differ in qid shape (as documented)."""
+    per_key, _ = spec_shapes(cirq, program)
+    for k, shapes in per_key.items():
+        if len(set(shapes)) != 1:
+            raise ValueError(f'measurements of key {k!r} differ in qid shape: {shapes}')
+    return collections.OrderedDict((k, (repetitions, len(shapes), len(shapes[0]))) for k, shapes in per_key.items())
+
+
+def shape_qubits(cirq):
+    return [cirq.LineQubit(i) for i in range(6)], [cirq.LineQid(10 + i, dimension=3) for i in range(3)]
+
+
+def shape_grid(cirq):
+    """Circuits every run judges, whatever VERIF_SEED: keys shared by the measurements of ONE moment (parallel readout),
+    keys repeated over moments, both at once, next to gates, behind measurement-free moments, qutrits, frozen circuits,
+    default insertion, and keys whose measurements differ in qid shape (must be refused)."""
+    import sympy
+    qs, qt = shape_qubits(cirq)
+    M, meas, t = cirq.Moment, cirq.measure, sympy.Symbol('t')
+    out = []
+    for n in (2, 3, 4, 6):            # parallel readout of n qubits under one key, behind 0 / 5 measurement-free moments
+        for depth in (0, 5):
+            out.append((f'parallel readout of {n} qubits under one key, depth {depth}',
+                        cirq.Circuit([M(cirq.Z.on_each(*qs[:n])) for _ in range(depth)], M(meas(x, key='ro') for x in qs[:n]))))
+    out.append(('two-qubit measurements sharing a key inside each of two moments, second key alongside',
+                cirq.Circuit(M(meas(qs[0], qs[1], key='a'), meas(qs[2], qs[3], key='a')),
+                             M(meas(qs[0], qs[1], key='a'), meas(qs[2], key='b')))))
+    out.append(('two keys, each twice in one moment, then one of them again',
+                cirq.Circuit(M(meas(qs[0], key='a'), meas(qs[1], key='b'), meas(qs[2], key='a'), meas(qs[3], key='b')), M(meas(qs[4], key='b')))))
+    out.append(('shared key next to gates in one moment',
+                cirq.Circuit(M(cirq.Z(qs[0]) ** t, meas(qs[1], key='m0'), cirq.CZ(qs[2], qs[3]), meas(qs[4], key='m0')), M(meas(qs[0], key='z')))))
+    out.append(('parallel readout repeated in three moments with gates between',
+                cirq.Circuit(M(meas(x, key='ro') for x in qs[:3]), M(cirq.S.on_each(*qs[:3])), M(meas(x, key='ro') for x in qs[:3]),
+                             M(cirq.Z(qs[0]) ** t), M(meas(x, key='ro') for x in qs[:2]))))
+    for k in (2, 3, 4):
+        out.append((f'one key in {k} successive moments', cirq.Circuit(M(meas(qs[0], qs[1], key='a')) for _ in range(k))))
+    out.append(('one key per operation', cirq.Circuit(meas(qs[0], key='a'), meas(qs[1], qs[2], key='b'), meas(qs[3], key='q(0, 1)'))))
+    out.append(('default insertion of a repeated key (one instance per moment)',
+                cirq.Circuit(meas(qs[0], key='a'), meas(qs[0], key='a'), meas(qs[1], qs[2], key='b'))))
+    out.append(('qutrit parallel readout under one key', cirq.Circuit(M(meas(x, key='ro') for x in qt), M(meas(qt[0], key='ro'), meas(qs[0], key='b')))))
+    out.append(('mixed qubit/qutrit measurements sharing a key', cirq.Circuit(M(meas(qs[0], qt[0], key='z'), meas(qs[1], qt[1], key='z'), meas(qs[2], key='a')))))
+    out.append(('frozen circuit, parallel readout', cirq.Circuit(M(cirq.Z.on_each(*qs[:4])), M(meas(x, key='ro') for x in qs[:4])).freeze()))
+    out.append(('frozen circuit, shared key in two moments',
+                cirq.Circuit(M(meas(qs[0], key='a'), meas(qs[1], key='a')), M(meas(qs[0], key='a'), meas(qs[1], key='a'))).freeze()))
+    # a key whose measurements differ in qid shape is refused (ValueError), inside one moment and across moments
+    out.append(('one moment, one key, widths 2 and 1', cirq.Circuit(M(meas(qs[0], qs[1], key='a'), meas(qs[2], key='a')))))
+    out.append(('two moments, one key, widths 1 and 2', cirq.Circuit(M(meas(qs[0], key='a')), M(meas(qs[1], qs[2], key='a')))))
+    out.append(('one moment, one key, a qubit and a qutrit', cirq.Circuit(M(meas(qs[0], key='a'), meas(qt[0], key='a'), meas(qs[1], key='b')))))
+    return out
+
+
+def gen_shape_circuit(cirq, rng):
+    """Moments written out by hand (not by an insertion strategy): each holds gates that keep |0..0>, measurements, or both;
+    a key keeps the qid shape of its first measurement (5 % of the circuits break that on purpose) and is reused freely,
+    inside a moment and across moments."""
+    import sympy
+    qs, qt = shape_qubits(cirq)
+    t = sympy.Symbol('t')
+    pool = rng.sample(SHAPE_KEYS, rng.choice([1, 1, 2, 2, 3, 4]))
+    form = {k: rng.choice(SHAPE_FORMS) for k in pool}
+    breaks = rng.random() < 0.05
+    distinct = rng.random() < 0.2         # every measurement under a key of its own: the flat views and sample() exist
+    unused = [k for k in SHAPE_KEYS]
+    rng.shuffle(unused)
+    moments = []
+    for _ in range(rng.choice([1, 1, 2, 2, 3, 4, 6])):
+        kind = rng.choice(['readout', 'readout', 'readout', 'mixed', 'gates'])
+        free2, free3 = list(qs), list(qt)
+        rng.shuffle(free2)
+        rng.shuffle(free3)
+        ops = []
+        if kind in ('gates', 'mixed'):
+            for _ in range(rng.randint(1, 3)):
+                g = rng.choice(['Z', 'S', 'Zt', 'CZ', 'I'])
+                if g == 'CZ' and len(free2) >= 2:
+                    ops.append(cirq.CZ(free2.pop(), free2.pop()))
+                elif free2:
+                    x = free2.pop()
+                    ops.append({'Z': cirq.Z(x), 'S': cirq.S(x), 'Zt': cirq.Z(x) ** t, 'I': cirq.I(x), 'CZ': cirq.Z(x)}[g])
+        if kind in ('readout', 'mixed'):
+            same = rng.random() < 0.5          # parallel readout: every measurement of the moment under one key
+            key0 = rng.choice(pool)
+            for _ in range(rng.choice([1, 2, 2, 3, 4])):
+                key = key0 if same else rng.choice(pool)
+                if distinct:
+                    if not unused:
+                        break
+                    key = unused.pop()
+                shape = form.setdefault(key, rng.choice(SHAPE_FORMS))
+                if breaks and rng.random() < 0.4:
+                    shape = rng.choice([f for f in SHAPE_FORMS if f != form[key]])
+                if sum(d == 2 for d in shape) > len(free2) or sum(d == 3 for d in shape) > len(free3):
+                    continue
+                ops.append(cirq.measure(*[(free2 if d == 2 else free3).pop() for d in shape], key=key))
+        rng.shuffle(ops)
+        moments.append(cirq.Moment(ops))
+    circuit = cirq.Circuit(moments)
+    if not any(isinstance(op.gate, cirq.MeasurementGate) for op in circuit.all_operations()):
+        circuit.append(cirq.Moment(cirq.measure(x, key=k_) for x, k_ in zip(qs[:2], [pool[0], pool[0]] if not distinct else ['a', 'b'])))
+    return circuit.freeze() if rng.random() < 0.15 else circuit
+
+
+def result_views(cirq, res):
+    """Every view of a result as plain data (an exception by its type); a fresh object per view, because a failed
+    access to .measurements leaves a partially filled cache behind."""
+    recs = collections.OrderedDict((k, np.array(v)) for k, v in res.records.items())
+    mk = lambda: cirq.ResultDict(params=res.params, records={k: a.copy() for k, a in recs.items()})
+
+    def view(f):
+        try:
+            return f(mk())
+        except (ValueError, KeyError) as e:
+            return 'raises ' + type(e).__name__
+    keys = sorted(recs)
+    out = collections.OrderedDict()
+    out['records'] = {k: (tuple(a.shape), a.astype(np.int64).ravel().tolist()) for k, a in recs.items()}
+    out['repetitions'] = view(lambda r: int(r.repetitions))
+    out['params'] = sorted((str(k), float(v)) for k, v in res.params.param_dict.items())
+    out['measurements'] = view(lambda r: {k: (tuple(v.shape), np.asarray(v).astype(np.int64).ravel().tolist()) for k, v in r.measurements.items()})
+    out['data'] = view(lambda r: (sorted(map(str, r.data.columns)), {str(c): [int(x) for x in r.data[c]] for c in r.data.columns}, [int(i) for i in r.data.index]))
+    for k in keys:
+        out[f'histogram({k!r})'] = view(lambda r: dict(r.histogram(key=k)))
+    out['multi_measurement_histogram'] = view(lambda r: dict(r.multi_measurement_histogram(keys=keys)))
+    out['str'] = view(str)
+    return out
+
+
+def frame_view(df):
+    return (sorted(map(str, df.columns)), {str(c): [float(x) for x in df[c]] for c in df.columns}, [int(i) for i in df.index])
+
+
+def judge_shapes_case(ctx, cirq, label, circuit, sweep, reps, rows=None, kid=None):
+    """One circuit through every entry point of ZerosSampler, judged by the documented record shape
+    (repetitions, instances of the key, qubits of the measurement), by Sampler._get_measurement_shapes' own contract,
+    and by the simulator's results for the same circuit (all outcomes are 0) in every view."""
+    import duet
+    rp = dict(kind='shapes', label=label, circuit=cirq.to_json(circuit), sweep=cirq.to_json(sweep) if sweep is not None else None, repetitions=reps)
+    per_key, moments = spec_shapes(cirq, circuit)
+    try:
+        want = spec_record_shapes(cirq, circuit, reps)
+    except ValueError:
+        want = None
+    cs = str(circuit)
+    desc = f'{label}:\n{cs}\n'
+    ckey = [cs, repr(sweep), reps]
+    zs = cirq.ZerosSampler()
+    resolvers = list(cirq.to_resolvers(sweep))
+    nontriv = want is not None and any(len(v) >= 2 for v in per_key.values())
+    parallel = any(len([o for o in m if o is not None and o[0] == k]) >= 2 for m in moments for k in per_key)
+    ctx.count('shapes:circuit', ckey, nontriv,
+              sample=dict(circuit=cs, repetitions=reps, documented_shapes=None if want is None else {k: list(v) for k, v in want.items()}))
+    ctx.count('shapes:key-shared-inside-a-moment', ckey, parallel and want is not None)
+    # -- the helper itself: {key: (instances, qid shape)}, keys in the order of their first measurement
+    try:
+        got_shapes = cirq.Sampler._get_measurement_shapes(circuit)
+        got_shapes = [(str(k), (int(n), tuple(int(d) for d in s))) for k, (n, s) in got_shapes.items()]
+    except ValueError:
+        got_shapes = None
+    exp_shapes = None if want is None else [(k, (len(v), v[0])) for k, v in per_key.items()]
+    if rows is not None:
+        rows['shapes'].append((moments, got_shapes))
+    if (None if got_shapes is None else dict(got_shapes)) != (None if exp_shapes is None else dict(exp_shapes)):
+        ctx.violation('sampler:measurement-shapes', f'Sampler._get_measurement_shapes gives (instances, qid shape) = {None if got_shapes is None else dict(got_shapes)}, '
+                      f'the circuit holds {None if exp_shapes is None else dict(exp_shapes)} (ValueError expected exactly when the measurements of a key differ in qid shape) for {desc}', rp)
+    # -- every entry point of ZerosSampler
+    def entry(f):
+        try:
+            return f()
+        except ValueError:
+            return None
+    pr0 = resolvers[0]
+    entries = collections.OrderedDict()
+    entries['run'] = entry(lambda: [zs.run(circuit, pr0, reps)])
+    entries['run_async'] = entry(lambda: [duet.run(zs.run_async, circuit, pr0, reps)])
+    entries['run_sweep'] = entry(lambda: list(zs.run_sweep(circuit, sweep, reps)))
+    entries['run_sweep_async'] = entry(lambda: list(duet.run(zs.run_sweep_async, circuit, sweep, reps)))
+    entries['run_batch'] = entry(lambda: list(zs.run_batch([circuit, circuit], [sweep, pr0], reps)[0]))
+    entries['run_batch_async'] = entry(lambda: list(duet.run(zs.run_batch_async, [circuit], [sweep], [reps])[0]))
+    entries['run_sweep_iter'] = entry(lambda: list(zs.run_sweep_iter(circuit, sweep, reps))) if hasattr(zs, 'run_sweep_iter') else entries['run_sweep']
+    bad_entry = None
+    for how, results in entries.items():
+        ctx.count('shapes:zeros:' + how, ckey, nontriv)
+        prs = [pr0] if how in ('run', 'run_async') else resolvers
+        if want is None:
+            if results is not None:
+                ctx.violation('sampler:zeros:record-shape', f'ZerosSampler.{how} accepts a key whose measurements differ in qid shape {dict(per_key)} for {desc}', dict(rp, entry=how))
+            continue
+        got = None if results is None else [{k: tuple(v.shape) for k, v in r.records.items()} for r in results]
+        ok = results is not None and len(results) == len(prs) and all(g == dict(want) for g in got) and all(
+            r.params == p and not any(np.asarray(v).any() for v in r.records.values()) for r, p in zip(results, prs))
+        if not ok:
+            bad_entry = bad_entry or how
+            ctx.violation('sampler:zeros:record-shape', f'ZerosSampler.{how}(repetitions={reps}) returned record shapes {None if got is None else got[0]} '
+                          f'({None if got is None else len(got)} results for {len(prs)} resolvers), but the circuit has (repetitions, instances, qubits) = {dict(want)} '
+                          f'(instances = measurement operations carrying the key, wherever they stand) for {desc}', dict(rp, entry=how))
+    if rows is not None and want is not None and entries['run_sweep']:
+        rows['zeros'].append((moments, reps, collections.OrderedDict((k, np.asarray(v)) for k, v in entries['run_sweep'][0].records.items())))
+    # -- the simulator on the same circuit: every outcome is 0, so every view of every result must coincide
+    sim = cirq.Simulator(seed=ctx.rng.randrange(2 ** 31))
+    sim_entries = collections.OrderedDict()
+    sim_entries['run'] = entry(lambda: [sim.run(circuit, pr0, reps)])
+    sim_entries['run_sweep'] = entry(lambda: list(sim.run_sweep(circuit, sweep, reps)))
+    sim_entries['run_batch'] = entry(lambda: list(sim.run_batch([circuit, circuit], [sweep, pr0], reps)[0]))
+    for how, ref in sim_entries.items():
+        ctx.count('shapes:zeros-vs-simulator:' + how, ckey, nontriv and reps >= 1)
+        mine = entries[how]
+        if want is None:
+            continue           # refused by ZerosSampler as documented; what a simulator makes of such a circuit is not this property's business
+        if ref is None or mine is None or len(ref) != len(mine):
+            ctx.violation('sampler:zeros-vs-simulator', f'{how}(repetitions={reps}): ZerosSampler gives {None if mine is None else len(mine)} results, the simulator '
+                          f'{None if ref is None else len(ref)} for {desc}', dict(rp, entry=how))
+            continue
+        for i, (a, b) in enumerate(zip(mine, ref)):
+            sim_shapes = {k: tuple(np.asarray(v).shape) for k, v in b.records.items()}
+            if sim_shapes != dict(want):       # the reference itself departs from the documented shape
+                sig = 'simulator:zero-repetitions-record-shape' if reps == 0 else 'simulator:record-shape'
+                ctx.violation(sig, f'Simulator.{how}(repetitions={reps}) returned record shapes {sim_shapes}, but the circuit has (repetitions, instances, qubits) = {dict(want)} '
+                              f'for {desc}', dict(rp, entry=how))
+                continue
+            va, vb = result_views(cirq, a), result_views(cirq, b)
+            diff = [v for v in va if va[v] != vb.get(v)]
+            if diff or not (a == b):
+                ctx.violation('sampler:zeros-vs-simulator', f'{how}(repetitions={reps}) result {i}: ZerosSampler and the simulator differ in {diff or ["=="]}: '
+                              f'{ {v: (va[v], vb.get(v)) for v in diff[:2]} } for {desc}', dict(rp, entry=how))
+    # -- sample: the data frame of the zero sampler and of the simulator (both refuse a repeated key)
+    def frame(s):
+        try:
+            return frame_view(s.sample(circuit, repetitions=max(reps, 1), params=sweep))
+        except ValueError as e:
+            return 'raises ValueError'
+    fz, fs = frame(zs), frame(sim)
+    ctx.count('shapes:sample', ckey, want is not None and all(len(v) == 1 for v in per_key.values()))
+    if want is not None:
+        single = all(len(v) == 1 for v in per_key.values())
+        exp_cols = sorted(set(per_key) | {str(k) for p in resolvers for k in p.param_dict}) if single else None
+        if (fz == 'raises ValueError') != (not single) or (single and (fz[0] != exp_cols or any(fz[1][k] != [0.0] * (max(reps, 1) * len(resolvers)) for k in per_key))):
+            ctx.violation('sampler:zeros:sample', f'ZerosSampler.sample(repetitions={max(reps, 1)}) = {fz}; expected '
+                          f'{"a refusal (a key is measured more than once)" if not single else f"columns {exp_cols}, one all-zero row per resolver and repetition"} for {desc}', dict(rp, entry='sample'))
+        elif fz != fs:
+            ctx.violation('sampler:zeros-vs-simulator', f'sample(repetitions={max(reps, 1)}): ZerosSampler gives {fz}, the simulator {fs} for {desc}', dict(rp, entry='sample'))
+    return want
+
+
+def gen_shape_sweep(cirq, rng):
+    r = rng.random()
+    if r < 0.4:
+        return None
+    if r < 0.6:
+        return cirq.ParamResolver({'t': rng.choice([0, 0.5, 1])})
+    if r < 0.8:
+        return cirq.Points('t', [rng.choice([0, 0.25, 1]) for _ in range(rng.randint(1, 3))])
+    return cirq.Product(cirq.Points('t', [0, 1]), cirq.Points('u', [0.25, 0.75][:rng.randint(1, 2)]))
+
+
+def shapes_stream(ctx, cirq, n, shard=0):
+    rng = ctx.rng
+    kid = {k: i for i, k in enumerate(SHAPE_KEYS)}
+    rows = dict(shapes=[], zeros=[])
+    cases = []
+    for i, (label, circuit) in enumerate(shape_grid(cirq) if shard == 0 else []):
+        cases.append((label, circuit, cirq.Points('t', [0.5, 1]) if i % 3 == 0 else None, 3))
+        if i % 4 == 0:
+            cases.append((label, circuit, None, [0, 1, 2][(i // 4) % 3]))
+    for _ in range(n):
+        cases.append(('generated circuit', gen_shape_circuit(cirq, rng), gen_shape_sweep(cirq, rng), rng.choice([0, 1, 2, 3, 3, 5])))
+    for label, circuit, sweep, reps in cases:
+        if sweep is None and cirq.is_parameterized(circuit):
+            sweep = cirq.ParamResolver({'t': 0.25})
+        judge_shapes_case(ctx, cirq, label, circuit, sweep, reps, rows, kid)
+    # ---- the model (Codec/SamplerShapes.v) on the same circuits
+    ZL = coq.zlist
+    op_lit = lambda o: 'None' if o is None else f'Some ({kid[o[0]]}, {ZL(o[1])})'
+    circ_lit = lambda ms: '[' + '; '.join('[' + '; '.join(op_lit(o) for o in m) + ']' for m in ms) + ']'
+    sh_lit = lambda l: '[' + '; '.join(f'({kid[k]}, ({n_}%nat, {ZL(s_)}))' for k, (n_, s_) in l) + ']'
+    text = ('From Coq Require Import ZArith List Bool.\nFrom VF Require Import Base.Harness Codec.ResultViews Codec.SamplerShapes.\n'
+            'Import ListNotations.\nOpen Scope Z_scope.\n' + COQ_FOLDS)
+    text += 'Definition c_shapes : list (mcircuit * option (list (Z * (nat * list Z)))) := [\n' + ';\n'.join(
+        f'({circ_lit(ms)}, {coq.opt(out, sh_lit)})' for ms, out in rows['shapes']) + '].\n'
+    text += ('Eval vm_compute in failing (fun c => opt_eqb (list_eqb (pair_eqb Z.eqb (pair_eqb Nat.eqb zl_eqb))) '
+             '(measurement_shapes (fst c)) (snd c)) c_shapes.\n')
+    text += 'Definition c_zeros : list (mcircuit * nat * result) := [\n' + ';\n'.join(
+        f'({circ_lit(ms)}, {reps}%nat, {res_lit(recs, kid)})' for ms, reps, recs in rows['zeros']) + '].\n'
+    text += ('Eval vm_compute in failing (fun c => match c with (m, reps, r) => opt_eqb res_eqb (zeros_result reps m) (Some r) '
+             '&& res_eqb (reference_result reps m) r end) c_zeros.\n')
+    vals = coq.parse_evals(coq.coq_eval(f'c18_shapes_{ctx.seed}_{shard}', text))
+    assert len(vals) == 2, vals
+    for name, val in zip(['shapes', 'zeros'], vals):
+        for idx in coq.parse_nat_list(val):
+            ctx.mark_broken(f'correspondence:sampler:{name}', f'model and implementation differ on {str(rows[name][idx])[:1500]}')
+
+
+
 # ------------------------------------------------------------------ sampler defaults
 def sampler_stream(ctx, cirq, n):
     import duet, sympy
@@ -874,8 +1197,9 @@ def sampler_stream(ctx, cirq, n):
         tag = int(program.tags[0]) if program.tags else 0
         for i, pr in enumerate(cirq.to_resolvers(params)):
             recs = {}
-            for k, (inst, shape) in cirq.Sampler._get_measurement_shapes(program).items():
-                a = np.zeros((repetitions, inst, len(shape)), dtype=np.uint8)
+            for k, (_, inst, nq_) in spec_record_shapes(cirq, program, repetitions).items():
+                shape = range(nq_)
+                a = np.zeros((repetitions, inst, nq_), dtype=np.uint8)
                 for r in range(repetitions):
                     for j in range(inst):
                         for b in range(len(shape)):
@@ -1011,9 +1335,9 @@ def sampler_stream(ctx, cirq, n):
         zs = cirq.ZerosSampler()
         zc = cirq.Circuit(cirq.measure(q0, q1, key='ab'), cirq.measure(q2, key='c'), cirq.measure(q0, q1, key='ab')) if rng.random() < 0.5 else circ
         zr = zs.run_sweep(zc, sw, reps)
-        shapes = cirq.Sampler._get_measurement_shapes(zc)
+        shapes = spec_record_shapes(cirq, zc, reps)
         ok = len(zr) == len(list(cirq.to_resolvers(sw))) and all(
-            set(r.records) == set(shapes) and all(r.records[k].shape == (reps, shapes[k][0], len(shapes[k][1])) and not r.records[k].any() for k in shapes)
+            set(r.records) == set(shapes) and all(r.records[k].shape == shapes[k] and not r.records[k].any() for k in shapes)
             and r.params == p_ for r, p_ in zip(zr, cirq.to_resolvers(sw)))
         ok = ok and zs.run(zc, cirq.ParamResolver({'t': 0, 'u': 0}), reps) == zs.run_sweep(zc, cirq.ParamResolver({'t': 0, 'u': 0}), reps)[0]
         ctx.count('sampler:zeros', [str(zc), repr(sw), reps], reps >= 1)
@@ -1101,6 +1425,13 @@ def replay(ctx, data):
         for v in sub.violations:
             print(v['what'][:500])
         return not sub.violations
+    if k == 'shapes':
+        sub = runner.Ctx('C18', 'quick', data.get('seed', 0), LEVEL)
+        judge_shapes_case(sub, cirq, data.get('label', 'replayed circuit'), cirq.read_json(json_text=data['circuit']),
+                          None if data.get('sweep') is None else cirq.read_json(json_text=data['sweep']), data['repetitions'])
+        for v in sub.violations:
+            print(v['what'][:700])
+        return not sub.violations and not sub.known_hits
     if k == 'sampler':
         sub = runner.Ctx('C18', 'quick', data.get('seed', 0), LEVEL)
         sampler_stream(sub, cirq, 60)
